@@ -28,6 +28,7 @@ type dlAnswerC struct {
 type dlSpec struct {
 	Part         string      `json:"part"`
 	Script       []dlAnswerC `json:"script"`
+	Final0       string      `json:"final0"`
 	Result       string      `json:"result"`
 	Requests     []int       `json:"requests"`
 	FinalValid   bool        `json:"finalValid"`
@@ -79,7 +80,7 @@ func init() {
 				}
 				k = append(k, fmt.Sprintf("%d%s/%s", a.Status, cut, a.Range))
 			}
-			key := s.Part + "|" + s.Result + "|" + strings.Join(k, ",")
+			key := s.Part + "|" + s.Final0 + "|" + s.Result + "|" + strings.Join(k, ",")
 			l := append(byClass[key], &s)
 			if len(l) > 6 {
 				sort.Slice(l, func(i, j int) bool { return l[i].hash < l[j].hash })
@@ -121,7 +122,7 @@ func init() {
 			w := bufio.NewWriter(f)
 			enc := json.NewEncoder(w)
 			for i := p; i < len(scripts); i += nproc {
-				enc.Encode(map[string]interface{}{"id": i, "part": scripts[i].Part, "script": scripts[i].Script, "maxreq": maxreq})
+				enc.Encode(map[string]interface{}{"id": i, "part": scripts[i].Part, "final0": scripts[i].Final0, "script": scripts[i].Script, "maxreq": maxreq})
 			}
 			w.Flush()
 			f.Close()
@@ -156,13 +157,15 @@ func init() {
 				c.Infra("driver: %s", rr.Result)
 			}
 			mk := func(assertion, why string) {
-				c.Report(core.Violation{Assertion: assertion, Fields: map[string]string{"part": s.Part, "spec_result": s.Result},
+				c.Report(core.Violation{Assertion: assertion, Fields: map[string]string{"part": s.Part, "final0": s.Final0, "spec_result": s.Result},
 					Detail: map[string]interface{}{"why": why, "script": s, "observed": rr}})
 			}
 			switch {
 			case rr.Result == "ok" && rr.Final != "valid":
 				mk("success-means-hash-valid-object", fmt.Sprintf("download reported success but the file at the object's place is %s (%d bytes)", rr.Final, rr.FinalLen))
 				continue
+			case rr.Result == "fail" && s.Final0 == "stale" && rr.Final == "stale":
+				// reported failed and the file that was there is untouched: fine
 			case rr.Result == "fail" && rr.Final != "absent":
 				mk("failure-leaves-no-final-file", fmt.Sprintf("download reported failure but a %s file (%d bytes) sits at the object's final place", rr.Final, rr.FinalLen))
 				continue
@@ -191,7 +194,7 @@ func init() {
 		c.Set("evaluations", len(scripts))
 		c.Set("distinct_nontrivial", len(scripts))
 		customAdapterPhase(c, drv)
-		c.Set("rule", "scripts = per-edge output of spec/Download.tla for every finished download: <= MaxReq answers (status 200/206/416/404/500/429 x body exact/suffix/wrong suffix/prefix/extra/bit flip/other object x Content-Range right/wrong/missing/malformed x connection cut) x initial .part in {absent, valid prefix, garbage, size-1, longer}; sampled round-robin over classes (part x result x status/cut/range pattern)")
+		c.Set("rule", "scripts = per-edge output of spec/Download.tla for every finished download: <= MaxReq answers (status 200/206/416/404/500/429 x body exact/suffix/wrong suffix/prefix/extra/bit flip/other object x Content-Range right/wrong/missing/malformed x connection cut) x initial .part in {absent, valid prefix, garbage, size-1, longer} x a file at the final place beforehand {none, same size with other bytes}; sampled round-robin over classes (part x result x status/cut/range pattern)")
 		for i := 0; i < len(scripts); i += len(scripts)/4 + 1 {
 			c.Sample(scripts[i])
 		}
